@@ -94,7 +94,11 @@ def run(ctx):
     reqs, metas = [], []
     for i in range(ctx.scale(300, 5000)):
         sm = sm_source(rng)
-        if not c01.in_domain_sm(sm) or any(v is None for v in sm.values()): res.count("skipped_out_of_domain"); continue
+        if rng.random() < .3:
+            # key-only parameters (#ATTACKS; loads as None), in particular for the keys whose components are re-joined on loading
+            for k in rng.sample(["ATTACKS", "DISPLAYBPM", "GENRE", "KEYSOUNDS", "CREDIT"], rng.randrange(1, 3)): sm[k] = None
+            res.count("source_with_key_only_parameter")
+        if not c01.in_domain_sm(sm): res.count("skipped_out_of_domain"); continue
         neg = rng.random() < .12
         if neg:
             sm[rng.choice(["BPMS", "STOPS"])] = "0.000=120.000,4.000=-%s" % rng.choice(["1", "0.5", "200"])
